@@ -87,4 +87,12 @@ theorem bytes_sites_known : ["UnmarshalBytes", "UnmarshalMapEntry", "UnmarshalOn
 theorem unmarshal_resets_first : ∀ t ∈ unmarshalResetsFirst, t.2 = true := by decide
 theorem unmarshal_resets_both : unmarshalResetsFirst.length = 2 := by decide
 
+/-- **C09**: the order in which `Size()` sizes and `MarshalTo` writes the proto2 extensions is fixed when the
+    code is generated (`range getExtensions` over the per-extension snippet, in both file templates); no
+    template enumerates the extensions the *runtime* holds (`RangeExtensions` / `ExtensionDescs` walk a Go map,
+    whose order changes from call to call) -/
+theorem extension_order_is_static :
+    extensionLoops = [("singlefile.go.tmpl", true, true), ("permessage.go.tmpl", true, true)] ∧
+    runtimeOrderedIteration = 0 := by decide
+
 end Csproto.Bridge.Templates
